@@ -686,3 +686,21 @@ Proof.
   - exists R2, (fun _ => (0, 0)). intros. cbn. ring.
   - exists R2, (fun _ _ => (0, 0)). intros. cbn. ring.
 Qed.
+
+(* the definitions, spelled out (for Props/C17_integral.v) *)
+Lemma model_matrices_def (s t : shell R) (m i n j : nat) :
+  Sov (s, m, i) (t, n, j) = Overlap.nth4 RK m i n j (overlap_block RK s t) /\
+  Tkin (s, m, i) (t, n, j) = Overlap.nth4 RK m i n j (kinetic_block RK s t) /\
+  chi (s, m, i) = cfun s m (nth i (comps_of s) (0, 0, 0)%nat) /\
+  (bvalid (s, m, i) <-> wf_shell s /\ (forall a, In a (s_exps s) -> 0 < a) /\ (m < nseg s)%nat /\ (i < length (comps_of s))%nat).
+Proof. split; [reflexivity|]. split; [reflexivity|]. split; [reflexivity|]. split; intro H; exact H. Qed.
+
+Lemma lcf_def (l : list (R * bidx)) (x y z : R) :
+  lcf l x y z = rsum (map (fun p => fst p * chi (snd p) x y z) l).
+Proof. reflexivity. Qed.
+
+Lemma gdot_def (F G : R -> R -> R -> R) (x y z : R) :
+  gdot F G x y z = Derive (fun t => F t y z) x * Derive (fun t => G t y z) x
+                   + Derive (fun t => F x t z) y * Derive (fun t => G x t z) y
+                   + Derive (fun t => F x y t) z * Derive (fun t => G x y t) z.
+Proof. reflexivity. Qed.
